@@ -103,3 +103,35 @@ def c06_add_loop_guard(sig, case):
     except Exception:
         pass
     return guard and sig.get("kind", "").split(":")[0] in ("wrong_stmt", "expr_raises", "wrong_expr", "raises", "gap_raises", "block_raises", "stmt_to_nonstmt")
+
+
+# ---------------------------------------------------------------- C15
+def c15_set_window_stale_uses(sig, case):
+    """set_window retypes only the argument declaration; call sites keep treating the buffer
+    as dense, so a window struct is passed where a dense tensor is required"""
+    def via_set_window():
+        if sig.get("introduced_by") == "set_window":
+            return True
+        # a callee variant produced with set_window and swapped in with call_eqv
+        pre = case.get("prelude") or []
+        return sig.get("introduced_by") == "call_eqv" and any(st.get("op") == "set_window" for p in pre for st in p.get("steps", []))
+
+    return (sig.get("monitor") == "annot-judge" and sig.get("kind") == "window_to_dense" and via_set_window()) or (
+        sig.get("monitor") == "gcc" and sig.get("feature") == "window_to_dense_accepted"
+    )
+
+
+def c15_window_struct_constness(sig, case):
+    """a window-typed name is passed through unchanged to a callee whose window struct has another constness"""
+    return sig.get("monitor") == "gcc" and sig.get("feature") == "window_struct_constness"
+
+
+def c15_reserved_names(sig, case):
+    """the backend reserves only 'ctxt': C keywords, libc names used by the backend (malloc, free)
+    and the backend's own helper names are emitted as identifiers"""
+    return sig.get("monitor") == "gcc" and sig.get("feature") in ("c_keyword_name", "libc_name", "backend_helper_name")
+
+
+def c15_vector_memory_argument(sig, case):
+    """an argument annotated with a non-addressable vector memory (AVX2/AVX512) is emitted as a scalar pointer"""
+    return sig.get("monitor") == "gcc" and sig.get("feature") == "vector_memory_argument"
